@@ -6,7 +6,13 @@ from .lib import scenario, dense, prod
 def tt_layer(E, s):
     tn = E.tn
     d = len(s['size_in'])
-    layer = E.tt.nn.LinearLayerTT(list(s['size_in']), list(s['size_out']), list(s['rank']), dtype=E.dt(s['dtype']), initializer=s['init'])
+    if s.get('ctor') == 'positional':
+        # the documented parameter order: size_in, size_out, rank, dtype, initializer
+        layer = E.tt.nn.LinearLayerTT(list(s['size_in']), list(s['size_out']), list(s['rank']), E.dt(s['dtype']), s['init'])
+    elif s.get('ctor') == 'positional_dtype':
+        layer = E.tt.nn.LinearLayerTT(list(s['size_in']), list(s['size_out']), list(s['rank']), E.dt(s['dtype']), initializer=s['init'])
+    else:
+        layer = E.tt.nn.LinearLayerTT(list(s['size_in']), list(s['size_out']), list(s['rank']), dtype=E.dt(s['dtype']), initializer=s['init'])
     params = list(layer.parameters())
     cores = [c for c in layer.cores]
     E.true('param_count', len(params) == d + 1)
@@ -46,6 +52,20 @@ def tt_layer(E, s):
         layer(x)
         sd = {k: E.tensor('sd_' + k.replace('.', '_'), list(v.shape), s['dtype']) for k, v in layer.state_dict().items()}
         layer.load_state_dict(sd)
+    if s.get('mode') == 'deepcopy':
+        # a deep copy of the (trained) layer is an independent layer: it keeps working on its own parameters when those change,
+        # and the original is not touched by it
+        import copy
+        orig = layer
+        layer = copy.deepcopy(orig)
+        E.true('copy_has_own_parameters', all(all(p is not q for q in orig.parameters()) for p in layer.parameters()) and len(list(layer.parameters())) == d + 1)
+        with tn.no_grad():
+            for k, c in enumerate(layer.cores):
+                c.copy_(E.tensor('w2_%d' % k, list(c.shape), s['dtype']))
+            layer.bias.copy_(E.tensor('b2', s['size_out'], s['dtype']))
+        Wo = dense(E, [c.detach() for c in orig.cores])
+        nb0 = len(s['batch'])
+        E.eq('original_after_copy_changed', orig(x), tn.tensordot(x, Wo, dims=(list(range(nb0, nb0 + d)), list(range(d, 2 * d)))) + orig.bias.detach())
     if s.get('replace_core') is not None:
         # a registered core is replaced by a new Parameter object after construction (as functional / meta-learning code does)
         k = s['replace_core']
